@@ -464,7 +464,7 @@ fn git_env_of(w: std::rc::Rc<GitWorld>, name: &str) -> Env {
 pub const GIT_KINDS: &[&str] = &["fail-before", "run-then-fail", "kill-before", "run-then-kill", "unreachable-from"];
 
 /// Number of git invocations of the target sync in a fault-free run (deterministic per config).
-fn git_count(with_remote: bool) -> Result<usize, String> {
+fn git_count(with_remote: bool) -> Result<Vec<String>, String> {
     let w = std::rc::Rc::new(GitWorld::new(with_remote)?);
     let env = git_env_of(w.clone(), "git");
     let accepted: Accepted = Default::default();
@@ -474,8 +474,11 @@ fn git_count(with_remote: bool) -> Result<usize, String> {
     prior(&env, &mut a, &mut b, &accepted)?;
     let mut sa = (env.open)(0)?;
     w.reset_count();
+    let _ = std::fs::remove_file(w.ctl("log"));
     block_on(a.sync(&mut sa, true)).map_err(|e| format!("fault-free target sync: {e:#}"))?;
-    Ok(w.count())
+    // the git subcommand of every invocation of the target sync, in order
+    let log = std::fs::read_to_string(w.ctl("log")).unwrap_or_default();
+    Ok(log.lines().map(|l| l.split_whitespace().nth(1).unwrap_or("?").to_string()).collect())
 }
 
 fn git_case(with_remote: bool, k: usize, kind: &str, index: u64, out: &mut CaseOut) {
@@ -632,7 +635,7 @@ pub fn run(ctx: &Ctx) -> Outcome {
         if !want(name) {
             continue;
         }
-        let n = match git_count(with_remote) {
+        let subcommands = match git_count(with_remote) {
             Ok(n) => n,
             Err(e) => {
                 if e.starts_with("HARNESS") {
@@ -643,15 +646,33 @@ pub fn run(ctx: &Ctx) -> Outcome {
                 continue;
             }
         };
+        let n = subcommands.len();
         let kinds: Vec<&str> = GIT_KINDS.iter().copied().filter(|k| with_remote || *k != "unreachable-from").collect();
         let total = (n * kinds.len()) as u64;
         // quick tier: with a remote, a seeded sample of the (invocation, kind) pairs; all of them otherwise
         let sample: Vec<u64> = if ctx.tier == crate::report::Tier::Quick && with_remote && only_idx.is_none() {
-            let mut all: Vec<u64> = (0..total).collect();
+            // stratified: for every fault kind the first `add`, the `commit` and the `push` of the
+            // write path; for "unreachable from" additionally the first `ls-remote` and `fetch`;
+            // plus a few seeded extra points
+            let first = |sub: &str| subcommands.iter().position(|s| s == sub);
+            let mut picks: Vec<u64> = vec![];
+            for (ki, kind) in kinds.iter().enumerate() {
+                let mut subs = vec!["add", "commit", "push"];
+                if *kind == "unreachable-from" {
+                    subs.extend(["ls-remote", "fetch"]);
+                }
+                for sub in subs {
+                    if let Some(k0) = first(sub) {
+                        picks.push((k0 * kinds.len() + ki) as u64);
+                    }
+                }
+            }
+            let mut all: Vec<u64> = (0..total).filter(|i| !picks.contains(i)).collect();
             crate::rng::Rng::derive(ctx.seed, "c11-git-sample", 0).shuffle(&mut all);
-            all.truncate(10);
-            all.sort();
-            all
+            picks.extend(all.into_iter().take(3));
+            picks.sort();
+            picks.dedup();
+            picks
         } else {
             let (lo, hi) = range(total);
             (lo..hi).collect()
